@@ -712,7 +712,11 @@ class Decompiler(object):
 
     def conditional_jump_new(decompiler, endpos, if_true):
         expr = decompiler.stack.pop()
-        if decompiler.pos >= decompiler.conditions_end:
+        # `COPY 1; POP_JUMP_IF_x; POP_TOP` is how CPython 3.12 compiles an and/or whose VALUE is used
+        # (e.g. `a == (b and c)` inside a condition): such a jump is not a condition jump
+        idx = decompiler.instructions_map.get(decompiler.pos, 0)
+        value_context = idx > 0 and decompiler.instructions[idx - 1][2] == 'COPY'
+        if decompiler.pos >= decompiler.conditions_end or value_context:
             clausetype = ast.Or if if_true else ast.And
         elif decompiler.pos in decompiler.or_jumps:
             clausetype = ast.Or
